@@ -20,7 +20,7 @@ for id in "$@"; do
   if echo "$out" | grep -q "^VIOLATION property=$id"; then
     caught=$((caught+1)); echo "== $id: CAUGHT (exit $rc)"
     f=$(echo "$out" | sed -n 's/^VIOLATION property=[^ ]* replay=\([^ ]*\).*/\1/p' | head -1)
-    [ -f "$f" ] && head -c 1500 "$f" && echo
+    [ -f "$f" ] && head -c 4000 "$f" && echo
   else
     echo "== $id: MISSED (exit $rc)"
   fi
